@@ -88,6 +88,11 @@ def newOfBytes (bytes : List UInt8) : M Finder :=
   | [] => pure s
   | first :: rest => newLoop rest { s with hash := Hash.add s.hash first }
 
+/-- the loop guard `self.hash == hash && is_equal_raw(cur, nstart, nlen)` of `find_raw` and
+`rfind_raw` (`&&` short-circuits: `is_equal_raw` only runs when the hashes are equal) -/
+def confirm (f : Finder) (mh mn : Mem) (cur nstart nlen : Nat) (hash : Hash) : M Bool :=
+  if f.hash == hash then IsEqual.isEqualRaw mh mn cur nstart nlen else pure false
+
 namespace Finder
 
 /-- `Finder::new(needle)` -/
@@ -97,8 +102,7 @@ def new (needle : Slice) : M Finder := newOfBytes needle.toList
 def findLoop (f : Finder) (mh mn : Mem) (nstart nlen end_ cur : Nat) (hash : Hash) :
     M (Option Nat) := do
   tick
-  -- `self.hash == hash && is_equal_raw(cur, nstart, nlen)` (short-circuit)
-  let eq ← if f.hash == hash then IsEqual.isEqualRaw mh mn cur nstart nlen else pure false
+  let eq ← confirm f mh mn cur nstart nlen hash
   if eq then pure (some cur) else
   if h : cur ≥ end_ then pure none else do
   let old ← mh.read cur
@@ -144,8 +148,7 @@ def new (needle : Slice) : M FinderRev := do
 def rfindLoop (f : Finder) (mh mn : Mem) (nstart nlen start cur : Nat) (hash : Hash) :
     M (Option Nat) := do
   tick
-  -- `self.0.hash == hash && is_equal_raw(cur, nstart, nlen)` (short-circuit)
-  let eq ← if f.hash == hash then IsEqual.isEqualRaw mh mn cur nstart nlen else pure false
+  let eq ← confirm f mh mn cur nstart nlen hash
   if eq then pure (some cur) else
   if h : cur ≤ start then pure none else do
   let _ ← mh.psub "rfind_raw: cur.sub(1)" cur 1
